@@ -27,7 +27,7 @@ type rsaSigner struct {
 
 func (s *rsaSigner) SigInfo() (*ndn.SigConfig, error) {
 	ret := &ndn.SigConfig{
-		Type:    ndn.SignatureSha256WithEcdsa,
+		Type:    ndn.SignatureSha256WithRsa,
 		KeyName: s.keyLocatorName,
 	}
 	if s.forCert {
